@@ -668,4 +668,17 @@ addresses as the configured list; result = (swapped, lock still held) -/
 def primingTail (found configured : Nat) : Bool × Bool :=
   if found ≥ configured then (true, false) else (false, false)
 
+/-! ## 16. newDialer's outbound address; the connection's fill buffer -/
+
+/-- `index := len(ips) * reqid / maxUint16` with `maxUint16 = 1 << 16` -/
+def dialerIndex (n reqid : Nat) : Nat := n * reqid / 65536
+
+/-- `tcpStream.fillMore` on a buffer of `size` bytes whose bytes
+`[start, end)` are unread, the client having `avail` bytes ready: the unread
+tail is moved to the front, and only a buffer FULL of unread bytes refuses.
+Result: (new start, bytes read) or `none` = io.ErrShortBuffer. -/
+def fillMore (size start «end» avail : Nat) : Option (Nat × Nat) :=
+  let unread := «end» - start
+  if unread = size then none else some (0, min avail (size - unread))
+
 end SdnsVerif.Model.OneReply
